@@ -30,3 +30,17 @@ Proof. reflexivity. Qed.
 Lemma tie_crc_bit_step : forall k crc n,
   crc_bits (S k) crc n = crc_bits k (fst (src_crc_bit_step crc n)) (snd (src_crc_bit_step crc n)).
 Proof. reflexivity. Qed.
+
+(* T1d: the message codecs as they read now.  SSH2_Kex.parse / write and SSH1_PublicKeyMessage.parse / write are translated statement by statement
+   (harness/codectrans.py -> gen/Codecs.v): which fields, in which order, with which ReadBuf / WriteBuf primitive, and - by symbolic evaluation of the
+   constructors and properties - which decoded value reaches which property of the object.  The hand-written message codecs of Wire.v are those functions,
+   for every payload and every message. *)
+From VGen Require Import Codecs.
+Lemma tie_parse_kexinit : forall p, parse_kexinit p = src_parse_kexinit p.
+Proof. reflexivity. Qed.
+Lemma tie_write_kexinit : forall k, write_kexinit k = src_write_kexinit k.
+Proof. reflexivity. Qed.
+Lemma tie_parse_pkm : forall p, parse_pkm p = src_parse_pkm p.
+Proof. reflexivity. Qed.
+Lemma tie_write_pkm : forall m, write_pkm m = src_write_pkm m.
+Proof. reflexivity. Qed.
